@@ -81,9 +81,23 @@ func runPair(c *ctx, id string, cfg runCfg, oldS, newS []Stmt, style sqlStyle) {
 	down := guard(func() string { return sn.StringDown() })
 	up2 := guard(func() string { return sn.StringUp() })
 	inv := guard(func() string { return invCheck(migrationOf(sn)) })
+	// the same pair under the other setting of the field-order option (C13); constructed afterwards because
+	// NewSqlize writes the package-level option
+	fcfg := cfg
+	fcfg.ignore = !cfg.ignore
+	fo, fn := fcfg.newSqlize(), fcfg.newSqlize()
+	load(fo, fcfg, style0(style), oldS)
+	load(fn, fcfg, style0(style), newS)
+	upFlip, downFlip := "", ""
+	if r := guard(func() string { fn.Diff(*fo); return "ok" }); r == "ok" {
+		upFlip = guard(func() string { return fn.StringUp() })
+		downFlip = guard(func() string { return fn.StringDown() })
+	} else {
+		upFlip, downFlip = r, r
+	}
 	c.emit(id, "pair", cfg.sexp(), stmtsSexp(oldS), stmtsSexp(newS),
 		obs("errOld", eo, "errNew", en, "stOld", stOld, "stNew", stNew, "hOld", hOld, "hNew", hNew, "errDiff", ed,
-			"stDiff", stDiff, "up", up, "down", down, "up2", up2, "inv", inv))
+			"stDiff", stDiff, "up", up, "down", down, "up2", up2, "inv", inv, "upFlip", upFlip, "downFlip", downFlip))
 	if up != "" || down != "" {
 		c.nontrivial(cfg.sexp() + stmtsSexp(oldS) + stmtsSexp(newS))
 	}
@@ -105,8 +119,12 @@ func suitePair(c *ctx) {
 	if c.n > 0 {
 		n = c.n
 	}
+	runWitnesses(c)
 	for i := 0; i < n; i++ {
 		dialect := []string{"mysql", "mysql", "mysql", "postgres", "sqlite3"}[c.rng.Intn(5)]
+		if c.dialect != "" {
+			dialect = c.dialect
+		}
 		cfg := runCfg{dialect: dialect, lower: c.rng.Intn(2) == 0, ignore: c.rng.Intn(4) == 0}
 		g := &gen{rng: c.rng, dialect: dialect}
 		so := schemaOpts{maxTables: 1 + c.rng.Intn(3), maxCols: 1 + c.rng.Intn(5), indexes: c.rng.Intn(3) != 0, fks: c.rng.Intn(3) == 0}
@@ -118,6 +136,15 @@ func suitePair(c *ctx) {
 			style.rng = c.rng
 		}
 		c.count("dialect_" + dialect)
-		runPair(c, fmt.Sprintf("p%d", i), cfg, old.script(), nw.script(), style)
+		os, ns := old.script(), nw.script()
+		if dialect != "mysql" || c.rng.Intn(2) == 0 {
+			// postgres / sqlite readers attach CREATE INDEX to the table of the previous statement: use the grouped route
+			os, ns = old.scriptGrouped(), nw.scriptGrouped()
+			c.count("route_grouped")
+		}
+		runPair(c, fmt.Sprintf("p%d", i), cfg, os, ns, style)
 	}
 }
+
+// style0 is the canonical (non-random) spelling of a style, so that auxiliary loads do not consume PRNG state
+func style0(st sqlStyle) sqlStyle { return sqlStyle{dialect: st.dialect} }
